@@ -236,10 +236,12 @@ PROPS["C20"] = {
             "(a) 2-4 threads apply add/sub/inc/dec/add_return/sub_return/cmpxchg-increment/or/and/xchg to 1-, 2-, 4- and 8-byte cells at odd offsets packed between bytes owned and rewritten by other threads, with a context switch possible at every access: "
             "final values must equal the truncated sums, per-thread bits and xchg tokens conserved, neighbours intact; "
             "(b) store-buffering litmus under simulated x86-TSO with each documented full-barrier operation (cmm_smp_mb, xchg, successful cmpxchg, add_return, sub_return, store with CMM_SEQ_CST / CMM_SEQ_CST_FENCE) between store and load: both-zero never; without a barrier it must occur (probe); message-passing litmus; "
-            "(c) sequential value semantics of every operation for signed/unsigned char/short/int/long on operands at width and sign boundaries against a plain C reference with guard words around the cell - this slice is ordinary seeded differential testing riding in the harness. "
+            "(c) sequential value semantics of every operation for signed/unsigned char/short/int/long on operands at width and sign boundaries against a plain C reference with guard words around the cell - this slice is ordinary seeded differential testing riding in the harness; "
+            "(d) the same value-semantics sweep in two ordinary optimised builds without hooks or instrumentation (default x86 and builtins), on cells initialised by a plain assignment in the same function: what the compiler makes of the shipped inline assembly next to ordinary code (counted in the assumptions note, not in evaluations). "
             "Non-trivial = every run (concurrent RMW on shared cells); distinct = distinct event-log fingerprints.",
     "assumptions": COMMON_ASSUME + ["atomicity and barrier strength of one machine instruction (lock prefix, xchg, mfence, asm clobbers) are axioms of the simulator and are NOT tested; what is tested is the C-level macro layer: operand widths, casts, retry loops, which primitive is selected, where fences are emitted"],
     "expect_probes": ["uatomic.sb_both_zero_without_barrier", "uatomic.sb_litmus_ran"],
+    "native_stage": True,
 }
 
 NOT_APPLICABLE = {}
